@@ -115,7 +115,7 @@ func ringRenderSizes(sizes map[string]int) string {
 
 // genAddresses draws n pairwise distinct addresses in one of several realistic shapes.
 func genAddresses(t *rapid.T, n int) []string {
-	style := rapid.IntRange(0, 4).Draw(t, "addrStyle")
+	style := rapid.IntRange(0, 5).Draw(t, "addrStyle")
 	nums := rapid.SliceOfNDistinct(rapid.IntRange(0, 60), n, n, rapid.ID[int]).Draw(t, "addrNums")
 	out := make([]string, n)
 	for i, k := range nums {
@@ -126,6 +126,13 @@ func genAddresses(t *rapid.T, n int) []string {
 			out[i] = "10.0.0." + strconv.Itoa(k) + ":10901"
 		case 2:
 			out[i] = "thanos-receive-" + strconv.Itoa(k) + ".thanos-receive.svc.cluster.local:10901"
+		case 5:
+			// pairs that differ only in letter case: still two distinct ring members
+			if i%2 == 1 {
+				out[i] = "receive-" + strconv.Itoa(nums[i-1]) + ".thanos.svc:10901"
+			} else {
+				out[i] = "Receive-" + strconv.Itoa(k) + ".thanos.svc:10901"
+			}
 		case 3:
 			out[i] = strconv.Itoa(k) // "1", "11", "111": prefixes of each other
 		default:
